@@ -1019,7 +1019,11 @@ impl ContSpec {
             update(&mut st.model);
             Ok(())
         } else if refusable && got == Ret::Err {
-            // refused: nothing may have changed; the observers verify that
+            // refused: nothing may have changed; the observers verify that — but only the refusals the unchanged library makes
+            // as well are tolerated (label: operation kind and length of the container)
+            let kind = format!("{op:?}");
+            let kind = kind.split('(').next().unwrap_or("").to_string();
+            zverif::core::tolerate_refusal(&self.name(), &format!("{kind}/len={}", len.min(9)), &format!("{op:?} on {len} elements"))?;
             st.refused += 1;
             Ok(())
         } else {
